@@ -187,6 +187,8 @@ Record tables := mk_tables {
   t_photon_r : string * string;                 (* Photon.from_dict keys (2-D tested first, 3-D) *)
   t_photon_esc_w : esc;
   t_photon_esc_r : esc;
+  t_frame_index_kept : bool;                    (* ASDF backend: the row labels of the cluster table are stored
+                                                   next to its columns and used when the DataFrame is rebuilt *)
   t_load_rebinds_only : bool;                   (* load_detector: `detector = new_detector` *)
   t_load_assigned : list field                  (* containers of the PASSED detector assigned from the loaded one *)
 }.
@@ -326,8 +328,10 @@ Definition from_dict (tb : tables) (pd : pdict) : option detector :=
   end.
 
 (* ---------------------------------------------------------------- the file backend (ASDF)
-   to_asdf turns the cluster table into {column: list} (orient="list": the row labels are NOT stored) and
-   from_asdf rebuilds a DataFrame from it (row labels 0..n-1); everything else passes through. *)
+   to_asdf turns the cluster table into {column: list} (orient="list": the row labels are not part of it) and
+   from_asdf rebuilds a DataFrame from it; the row labels come back iff they are stored separately and handed to the
+   DataFrame constructor (t_frame_index_kept), otherwise they are 0..n-1; the processed data goes through
+   backend_conv; everything else passes through. *)
 Fixpoint zrange_from (s : Z) (n : nat) : list Z :=
   match n with O => [] | S n' => s :: zrange_from (s + 1)%Z n' end.
 Definition nrows (cols : items) : nat :=
@@ -336,16 +340,16 @@ Definition nrows (cols : items) : nat :=
    the same conversion in memory, because from_dict cannot read Dataset objects) *)
 Definition backend_conv (v : dval) : dval :=
   match v with DKeyed m => DKeyed (listify_keyed m) | _ => v end.
-Definition file_conv (v : dval) : dval :=
+Definition file_conv (tb : tables) (v : dval) : dval :=
   match v with
-  | DFrame _ cols => DFrame (zrange_from 0%Z (nrows cols)) cols
+  | DFrame idx cols => DFrame (if t_frame_index_kept tb then idx else zrange_from 0%Z (nrows cols)) cols
   | _ => backend_conv v
   end.
 Definition via (conv : dval -> dval) (pd : pdict) : pdict :=
   {| p_type := p_type pd; p_props := p_props pd;
      p_data := map (fun kv => (fst kv, conv (snd kv))) (p_data pd) |}.
 Definition via_dict : pdict -> pdict := via backend_conv.
-Definition via_file : pdict -> pdict := via file_conv.
+Definition via_file (tb : tables) : pdict -> pdict := via (file_conv tb).
 
 (* ---------------------------------------------------------------- load_detector inside a pipeline *)
 Definition load_detector_effect (tb : tables) (running file : detector) : detector :=
@@ -377,9 +381,12 @@ Definition keys_nohash (m : keyed) : bool := forallb (fun kv => negb (has_char h
 (* no '#' in a key, and every variable has a dtype / shape that survives the trip through nested lists *)
 Definition restr_dict (f : field) (o : option payload) : Prop :=
   match o with Some (PKeyed m) => keys_nohash m = true /\ keyed_stable m = true | _ => True end.
-Definition restr_file (f : field) (o : option payload) : Prop :=
+Definition restr_file (tb : tables) (f : field) (o : option payload) : Prop :=
   restr_dict f o /\
-  match o with Some (PFrame idx cols) => idx = zrange_from 0%Z (nrows cols) | _ => True end.
+  match o with
+  | Some (PFrame idx cols) => t_frame_index_kept tb = true \/ idx = zrange_from 0%Z (nrows cols)
+  | _ => True
+  end.
 
 (* ---------------------------------------------------------------- decidable sufficient condition *)
 Definition esc_is (e : esc) (a b : ascii) : bool :=
@@ -472,10 +479,11 @@ Definition cont_eqb (a b : detector) : bool :=
 Definition model_of (tb : tables) (c : codec_case) : option detector :=
   match c_route c with
   | RDict => from_dict tb (via_dict (to_dict tb (det_of (c_orig c))))
-  | RFile => from_dict tb (via_file (to_dict tb (det_of (c_orig c))))
-  | RLoad => match c_running c with
-             | Some r => Some (load_detector_effect tb (det_of r) (det_of (c_orig c)))
-             | None => None
+  | RFile => from_dict tb (via_file tb (to_dict tb (det_of (c_orig c))))
+  | RLoad => (* the file was written by save (to_dict + backend), load_detector reads it back and copies *)
+             match c_running c, from_dict tb (via_file tb (to_dict tb (det_of (c_orig c)))) with
+             | Some r, Some loaded => Some (load_detector_effect tb (det_of r) loaded)
+             | _, _ => None
              end
   end.
 
